@@ -31,7 +31,7 @@ PROP(C17) __CPROVER_ensures(g_prev == 0 ==> (g_del_n == 0 && g_clear_n == 0))
 /* the new holder is a new object with the value's type and nullness, a temporary for whoever collects it */
 PROP(C08) __CPROVER_ensures(R != 0 && (void *)R != g_prev && R != ret && V_MAJOR(R) == __CPROVER_old(V_MAJOR(ret)) && V_LEVEL(R) == __CPROVER_old(V_LEVEL(ret)) && V_MINOR(R) == __CPROVER_old(V_MINOR(ret)) && V_ISNULL(R) == __CPROVER_old(V_ISNULL(ret)) && !V_LVALUE(R))
 /* an owned value is cloned and comes out untouched; a temporary gives its payload away and is left null */
-PROP(C05, C08) __CPROVER_ensures(__CPROVER_old(V_LVALUE(ret)) ==> (g_clone_n == 1 && g_clone_src == ret && V_UNCHANGED(ret) && R->_value.i == (__CPROVER_old(ret->_value.i) ^ 0x5555)))
+PROP(C05, C08, C15) __CPROVER_ensures(__CPROVER_old(V_LVALUE(ret)) ==> (g_clone_n == 1 && g_clone_src == ret && V_UNCHANGED(ret) && R->_value.i == (__CPROVER_old(ret->_value.i) ^ 0x5555)))
 PROP(C05, C08, C17) __CPROVER_ensures(!__CPROVER_old(V_LVALUE(ret)) ==> (g_clone_n == 0 && R->_value.i == __CPROVER_old(ret->_value.i) && V_ISNULL(ret)))
 ;
 #endif
